@@ -276,18 +276,22 @@ TOY_TE = [
     TE(4, 'te29_m1_h8', F29, (28,), (27,), r=5, h=8, complete=True),
     TE(5, 'te29_1_h8', F29, (1,), (2,), r=5, h=8, complete=True),
     TE(6, 'te47_1_h12', F47, (1,), (22,), r=5, h=12, complete=True),
+    # a, d both non-squares: 18 affine points, group order 20 (two points at infinity of the
+    # completed curve); a - d y^2 vanishes at y = +-2.  Used for the sampling op only.
+    TE(7, 'te17_a3_incomplete', F17, (3,), (5,), r=5, h=4, complete=False),
 ]
 
 
 def setup(c):
     """all points of a toy curve; checks #E = h r and picks a generator of the order-r subgroup"""
     pts = c.points()
-    assert len(pts) == c.h * c.r and isprime(c.r), (c.name, len(pts))
-    c.n = len(pts)
+    incomplete = getattr(c, 'complete', True) is False
+    assert incomplete or (len(pts) == c.h * c.r and isprime(c.r)), (c.name, len(pts))
+    c.n = c.h * c.r
     c.gen = None
     for P in pts:
         Q = c.mul(c.h, P)
-        if Q != c.ident:
+        if Q is not None and Q != c.ident and c.mul(c.r, Q) == c.ident:
             c.gen = Q
             break
     assert c.gen is not None and c.mul(c.r, c.gen) == c.ident
